@@ -196,6 +196,57 @@ func (c *ctx) session() {
 	if n > 5000 {
 		nops = g.Range(1, 2)
 	}
+	// The graph the library sees is simulator-owned storage. In a third of the
+	// sessions it is laid out CSR-style: every adjacency list is a sub-slice of
+	// one flat array, so each list has spare capacity that IS the next node's
+	// list (plus a sentinel tail). Whatever the layout, the library must leave it
+	// alone: it is compared with a snapshot after every operation.
+	var flat []int
+	if n <= 5000 && g.Chance(1, 3) {
+		tot := 0
+		for _, r := range adj {
+			tot += len(r)
+		}
+		flat = make([]int, tot, tot+8)
+		k := 0
+		for u, r := range adj {
+			copy(flat[k:], r)
+			adj[u] = flat[k : k+len(r)]
+			k += len(r)
+		}
+		tail := flat[tot : tot+8]
+		for i := range tail {
+			tail[i] = -424242
+		}
+		label += "/csr"
+		c.probe("graph_in_csr_layout_with_spare_capacity")
+	}
+	snap := make(refmodel.Adj, n)
+	for u := range adj {
+		snap[u] = append([]int(nil), adj[u]...)
+	}
+	var flatSnap []int
+	if flat != nil {
+		flatSnap = append([]int(nil), flat[:cap(flat)]...)
+	}
+	untouched := func(op string) bool {
+		if flat != nil {
+			full := flat[:cap(flat)]
+			for i := range full {
+				if full[i] != flatSnap[i] {
+					c.fail("graph-modified", op, "csr", "the library wrote into the caller's graph storage during %s (flat adjacency array, offset %d: %d became %d)", op, i, flatSnap[i], full[i])
+					return false
+				}
+			}
+		}
+		for u := range adj {
+			if !refmodel.SameSeq(adj[u], snap[u]) {
+				c.fail("graph-modified", op, "adjacency", "the library modified the adjacency list of node %d during %s", u, op)
+				return false
+			}
+		}
+		return true
+	}
 	c.logf("graph %s, %d operations", label, nops)
 	c.hash.Str("session/" + label[:indexOf(label, '(')] + sizeClass(n))
 	if n >= 2 {
@@ -231,6 +282,9 @@ func (c *ctx) session() {
 			c.bigraph(adj)
 		case 8:
 			c.equal(adj)
+		}
+		if c.viol == nil && n <= 5000 {
+			untouched(fmt.Sprintf("operation %d", k+1))
 		}
 	}
 }
@@ -331,6 +385,14 @@ func (c *ctx) euler(adj refmodel.Adj) {
 		crashAt = 1 + c.f.Intn(len(wpre))
 	}
 	variant := c.g.Pick(3, 1, 1) // both callbacks / Enter nil / Exit nil
+	if c.g.Chance(1, 12) {
+		// both nil: documented as allowed ("It may be nil"); must simply terminate
+		c.logf("Euler.Visit(root=%d) with nil Enter and Exit", root)
+		if pv := c.try(func() { graphalg.Euler{}.Visit(&simenv.SimGraph{Adj: adj}, root) }); pv != nil {
+			c.fail("order-panic", "Euler.Visit", "nil-callbacks", "Euler.Visit with nil callbacks panicked: %v", simkitStr(pv))
+		}
+		return
+	}
 	c.logf("Euler.Visit(root=%d) variant=%d crashEnterAt=%d", root, variant, crashAt)
 	run := func(crash int) (enters, exits []int, nestOK bool, pv any) {
 		var stack []int
